@@ -16,7 +16,10 @@ def register(fmt, builder, features, kind, ext):
 
 def _load_optional():
     import importlib
+    import os
     for mod in ("odf", "htmlfam", "rtf", "pdfw", "plain", "ole"):
+        if mod == "ole" and not (os.environ.get("VERIF_WITH_OLE") or os.path.exists(os.path.join(os.path.dirname(__file__), "ole.ready"))):
+            continue   # the OLE2 writers join the registry once they are finished (marker file vlib/gen/ole.ready)
         try:
             m = importlib.import_module(f"{__package__}.{mod}")
         except ModuleNotFoundError as e:
